@@ -30,6 +30,14 @@ import (
 // every cycle from the harness' own bookkeeping).  ORACLE at Reserve time, from the harness' own truth: the
 // reservation the pod was assumed into has an owner entry the pod satisfies, is not an allocate-once reservation
 // that already holds a pod, and, if Restricted, keeps sum(assigned) + request <= allocatable - inner reserved.
+// ROLL-BACKS at every stage of a cycle (Unreserve right after Reserve = Permit reject / later Reserve plugin failed;
+// PreBind then Unreserve = a later PreBind plugin or Bind failed; Unreserve after a failed Reserve) with the ORACLE
+// "after every step each cached reservation holds exactly the pods the harness knows to be assumed / assigned to it
+// and reports exactly their summed requests" (harness' own book-keeping, NOT the implementation's AssignedPods), plus
+// a restricted-fit question for a further owner right after every roll-back.  RESERVE-POD cycles (the reservation's
+// own scheduling cycle) of late, still unscheduled reservations: Reserve(reserve pod, node n) -> Unreserve (lister
+// still has the reservation / lost it) | bound (Available on n) -> ... -> Delete, on nodes n1..n3; the per-node
+// indexes are dumped and checked by the index clauses after every step.
 
 var c05Apps = []string{"", "a", "b"}
 
@@ -87,6 +95,10 @@ func TestVerifC05Pipeline(t *testing.T) {
 		t.Fatal("fixture handle is no FrameworkExtender")
 	}
 	ctx := context.TODO()
+	// the listers the plugin reads (rLister: Reserve / Unreserve of a reserve pod, name affinity; podLister:
+	// unreservePod) are the informers' stores; the informers are not started, the harness fills the stores
+	rIdx := suit.extenderFactory.KoordinatorSharedInformerFactory().Scheduling().V1alpha1().Reservations().Informer().GetIndexer()
+	pIdx := suit.fw.SharedInformerFactory().Core().V1().Pods().Informer().GetIndexer()
 
 	n := h.N(1500, 30000)
 	for idx := 0; idx < n; idx++ {
@@ -98,13 +110,64 @@ func TestVerifC05Pipeline(t *testing.T) {
 		pl.nominator = newNominator(nil, nil)
 		cache := pl.reservationCache
 		reh := &reservationEventHandler{cache: cache, rrNominator: pl.nominator}
+		_ = rIdx.Replace(nil, "")
+		_ = pIdx.Replace(nil, "")
 
 		rsvs := map[int]*c05PipeRsv{}
 		objs := map[int]*c05RObj{}
 		bound := map[int]int{}        // TRUTH: pod uid -> reservation it was assumed into
 		reqs := map[int][c05D]int64{} // pod uid -> requests (absent = -1)
 		stale := map[int]bool{}       // allocate-once reservation got its first pod and no reservation event since
+		gone := map[int]bool{}        // late reservation deleted (or lost from the lister): no further steps
 		nextPod := 10
+
+		// ORACLE on the harness' own truth (bound / reqs), after every step: a cached reservation holds exactly the
+		// pods assumed / assigned to it and not rolled back or deleted since, and reports their summed requests
+		truthCheck := func(when string) {
+			us := make([]int, 0, len(cache.reservationInfos))
+			for uid := range cache.reservationInfos {
+				us = append(us, c05UID(uid))
+			}
+			sort.Ints(us)
+			for _, u := range us {
+				ri := cache.reservationInfos[types.UID(strconv.Itoa(u))]
+				var ps []int
+				for pu := range ri.AssignedPods {
+					ps = append(ps, c05UID(pu))
+				}
+				sort.Ints(ps)
+				for _, pu := range ps {
+					if ru, ok := bound[pu]; !ok || ru != u {
+						h.Fail("C05:pipeline-rollback-leak", "%s: reservation %d still holds pod %d which is not assumed / assigned to it any more (rolled back or deleted); it reports cpu %d mem %d allocated",
+							when, u, pu, c05Val(0, ri.Allocated), c05Val(1, ri.Allocated))
+					}
+				}
+				var sum [c05D]int64
+				var bs []int
+				for pu, ru := range bound {
+					if ru == u {
+						bs = append(bs, pu)
+					}
+				}
+				sort.Ints(bs)
+				for _, pu := range bs {
+					if _, ok := ri.AssignedPods[types.UID(strconv.Itoa(pu))]; !ok {
+						h.Fail("C05:pipeline-assigned-lost", "%s: pod %d is assumed into reservation %d but the reservation does not hold it", when, pu, u)
+					}
+					for d := 0; d < c05D; d++ {
+						if v := reqs[pu][d]; v > 0 && c05HasName(ri, d) {
+							sum[d] += v
+						}
+					}
+				}
+				for d := 0; d < c05D; d++ {
+					if got := c05Val(d, ri.Allocated); got != sum[d] {
+						h.Fail("C05:pipeline-ledger-truth", "%s: reservation %d dim %d reports %d allocated but the pods assumed / assigned to it (%v) request %d",
+							when, u, d, got, bs, sum[d])
+					}
+				}
+			}
+		}
 
 		nR := []int{0, 1, 1, 1, 2, 2, 3}[r.Intn(7)]
 		regime := r.Intn(4) // 0,1 roomy; 2 tight; 3 no room at all
@@ -114,6 +177,7 @@ func TestVerifC05Pipeline(t *testing.T) {
 
 		deliver := func(u int, add bool) {
 			p := rsvs[u]
+			_ = rIdx.Add(p.build())
 			if add {
 				h.Op("eadd %s", p.o.line())
 				reh.OnAdd(p.build(), false)
@@ -123,6 +187,7 @@ func TestVerifC05Pipeline(t *testing.T) {
 			}
 			delete(stale, u)
 			c05DumpAndCheck(h, cache, objs)
+			truthCheck("after a reservation event")
 		}
 		for u := 1; u <= nR; u++ {
 			o := c05GenRObj(r, u)
@@ -139,11 +204,137 @@ func TestVerifC05Pipeline(t *testing.T) {
 			rsvs[u], objs[u] = p, o
 			deliver(u, true)
 		}
+		// late reservations: created unscheduled (Pending, no node), scheduled by their own reserve-pod cycle
+		nL := []int{0, 0, 1, 1, 2}[r.Intn(5)]
+		h.Tag(fmt.Sprintf("pipe:late-reservations:%d", nL))
+		for u := 5; u < 5+nL; u++ {
+			o := c05GenRObj(r, u)
+			o.node, o.phase = 0, 0
+			o.once = r.Chance(2, 5)
+			o.policy = []int{0, 1, 2, 2}[r.Intn(4)]
+			p := &c05PipeRsv{o: o, ownerApp: majority, zone: 1 + r.Intn(2)}
+			rsvs[u], objs[u] = p, o
+			deliver(u, true)
+		}
+		liveU := func() []int { // every reservation object that still exists, by uid
+			var us []int
+			for u := range rsvs {
+				if !gone[u] {
+					us = append(us, u)
+				}
+			}
+			sort.Ints(us)
+			return us
+		}
 
 		steps := r.Range(2, 8)
+		if nL > 0 {
+			steps += 2
+		}
 		for s := 0; s < steps; s++ {
 			k := r.Intn(100)
+			lateU := 0
+			if nL > 0 {
+				var ls []int
+				for u := 5; u < 5+nL; u++ {
+					if !gone[u] {
+						ls = append(ls, u)
+					}
+				}
+				if len(ls) > 0 {
+					lateU = ls[r.Intn(len(ls))]
+				}
+			}
 			switch {
+			case k >= 74 && lateU != 0: // a late reservation: its own reserve-pod cycle (with roll-back), or its deletion
+				u := lateU
+				p := rsvs[u]
+				o := p.o
+				if o.node != 0 { // already scheduled: the object is deleted, or a refresh event
+					if r.Bool() {
+						deliver(u, false)
+						h.Tag("pipe:late:refresh")
+						break
+					}
+					robj := p.build()
+					h.Op("edel %s", o.line())
+					reh.OnDelete(robj) // the plugin's listener marks it unavailable ...
+					c05DumpAndCheck(h, cache, objs)
+					h.Op("rdel %d %d", u, o.node)
+					cache.DeleteReservation(robj) // ... the scheduler-wide handler removes it from the cache
+					_ = rIdx.Delete(robj)
+					gone[u] = true
+					for pu, ru := range bound {
+						if ru == u {
+							delete(bound, pu)
+						}
+					}
+					c05DumpAndCheck(h, cache, objs)
+					truthCheck("after the deletion of a reservation")
+					h.Tag(fmt.Sprintf("pipe:late:deleted:n%d", o.node))
+					break
+				}
+				node := []int{1, 1, 2, 2, 3}[r.Intn(5)]
+				nodeName := c05NodeName(node)
+				lostBefore := r.Chance(1, 10) // the reservation is deleted before Reserve reads the lister
+				outcome := r.Intn(5)          // 0,1: rolled back, lister still has it; 2: rolled back, object deleted meanwhile; 3,4: bound
+				robj := p.build()
+				rp := reservationutil.NewReservePod(robj)
+				cs := framework.NewCycleState()
+				prepared := false
+				if h.Guard(func() { // BeforePreFilter of the reserve pod: exercised (it writes the cycle state), not observed
+					if _, _, st := pl.BeforePreFilter(ctx, cs, rp); st.IsSuccess() {
+						prepared = true
+					}
+				}) {
+					h.Op("rres 1 %d %s", node, o.line())
+					h.Obs("panic")
+					break
+				}
+				if !prepared {
+					cs.Write(stateKey, &stateData{})
+				}
+				h.Tag(fmt.Sprintf("pipe:late:before-prefilter-ok:%v", prepared))
+				if lostBefore {
+					_ = rIdx.Delete(robj)
+				}
+				h.Op("rres %d %d %s", vB(!lostBefore), node, o.line())
+				h.Tag("pipe:op:rres")
+				rc := 0
+				if h.Guard(func() { rc = c05CodeOf(pl.Reserve(ctx, cs, rp, nodeName)) }) {
+					h.Obs("panic")
+					break
+				}
+				h.Obs("rsv %d", rc)
+				h.Tag(fmt.Sprintf("pipe:late:rsv:%d", rc))
+				c05DumpAndCheck(h, cache, objs)
+				truthCheck("after Reserve of a reserve pod")
+				if rc == 0 && outcome >= 3 { // Bind wrote Status.NodeName / Available; the informer delivers the update
+					o.node, o.phase = node, 1
+					deliver(u, false)
+					h.Nontrivial()
+					h.Tag(fmt.Sprintf("pipe:late:bound:n%d", node))
+					break
+				}
+				// roll-back: Permit / PreBind / Bind (UpdateStatus) failed, or Reserve itself failed
+				listed := !lostBefore && outcome != 2
+				if !listed && !lostBefore {
+					_ = rIdx.Delete(robj)
+				}
+				h.Op("runr %d %d %d %s", vB(listed), node, u, o.line())
+				h.Tag("pipe:op:runr")
+				if h.Guard(func() { pl.Unreserve(ctx, cs, rp, nodeName) }) {
+					h.Obs("panic")
+					break
+				}
+				h.Obs("unr")
+				c05DumpAndCheck(h, cache, objs)
+				truthCheck("after Unreserve of a reserve pod")
+				h.Nontrivial()
+				h.Tag(fmt.Sprintf("pipe:late:unreserve:listed=%v:n%d", listed, node))
+				if !listed {
+					gone[u] = true
+				}
 			case k < 12 && nR > 0: // reservation event: refresh, or the controller marks it Succeeded / it comes back
 				u := r.Range(1, nR)
 				o := rsvs[u].o
@@ -176,6 +367,7 @@ func TestVerifC05Pipeline(t *testing.T) {
 				cache.deletePods(types.UID(strconv.Itoa(ru)), []*corev1.Pod{pod.build()})
 				delete(bound, pu)
 				c05DumpAndCheck(h, cache, objs)
+				truthCheck("after the deletion of an assigned pod")
 			default: // one scheduling cycle
 				pu := nextPod
 				nextPod++
@@ -197,6 +389,9 @@ func TestVerifC05Pipeline(t *testing.T) {
 					hasAff, hasName, affName = true, true, r.Range(1, 4)
 					if nR > 0 && r.Chance(3, 4) {
 						affName = r.Range(1, nR)
+					}
+					if nL > 0 && r.Chance(1, 4) {
+						affName = 5 + r.Intn(nL)
 					}
 				}
 				if hasAff {
@@ -288,8 +483,8 @@ func TestVerifC05Pipeline(t *testing.T) {
 						}
 					}
 				}
-				for u := 1; u <= nR; u++ {
-					if rsvs[u].o.available() {
+				for _, u := range liveU() {
+					if rsvs[u].o.available() && rsvs[u].o.node == 1 {
 						addTo(reservationutil.NewReservePod(rsvs[u].build()), rsvs[u].o.tmpl)
 					}
 				}
@@ -328,7 +523,7 @@ func TestVerifC05Pipeline(t *testing.T) {
 				// the harness' own evaluation of owner / name / affinity per reservation
 				var cands []int64
 				nc := 0
-				for u := 1; u <= nR; u++ {
+				for _, u := range liveU() {
 					p := rsvs[u]
 					ownerOK := p.ownerApp == app
 					nameMatch := hasName && affName == u
@@ -336,7 +531,10 @@ func TestVerifC05Pipeline(t *testing.T) {
 					cands = append(cands, int64(u), int64(vB(ownerOK)), int64(vB(nameMatch)), int64(vB(affOK)))
 					nc++
 				}
-				unreserve := r.Chance(1, 5)
+				// roll-back stage: 0 none, 1 Unreserve right after Reserve (Permit reject / a later Reserve plugin failed /
+				// Reserve itself failed), 2 PreBind then Unreserve (a later PreBind plugin or Bind failed), 3 PreBind only
+				stage := []int{1, 1, 1, 2, 2, 2, 3, 3, 3, 3, 3, 3, 0, 0, 0, 0, 0, 0, 0, 0}[r.Intn(20)]
+				apiPodKind := r.Intn(3) // what the pod lister shows at Unreserve: 0 nothing, 1 the unbound pod, 2 the pod annotated and on the node
 
 				// ---- run the real pipeline, collecting observations ----
 				var obs []string
@@ -344,7 +542,7 @@ func TestVerifC05Pipeline(t *testing.T) {
 				var fails []failT
 				chosen := 0
 				assumedInto := 0
-				dumpAfter, doUnreserve := false, false
+				dumpAfter, doUnreserve, doPreBind := false, false, false
 				cs := framework.NewCycleState()
 				panicked := h.Guard(func() {
 					_, _, st := pl.BeforePreFilter(ctx, cs, kpod)
@@ -474,9 +672,10 @@ func TestVerifC05Pipeline(t *testing.T) {
 							reqs[pu] = [c05D]int64{-1, -1, -1}
 						}
 					}
-					doUnreserve = unreserve && rc == 0
+					doUnreserve = stage == 1 || stage == 2
+					doPreBind = (stage == 2 || stage == 3) && rc == 0
 				})
-				h.Op("cyc %s %d %d 1 %s %s %d %d %d%s", pod.line(), vB(hasAff), vB(hasName), vInts(alloc[:]), vInts(total[:]), chosen, vB(unreserve), nc,
+				h.Op("cyc %s %d %d 1 %s %s %d %d %d%s", pod.line(), vB(hasAff), vB(hasName), vInts(alloc[:]), vInts(total[:]), chosen, stage, nc,
 					func() string {
 						if nc == 0 {
 							return ""
@@ -496,16 +695,99 @@ func TestVerifC05Pipeline(t *testing.T) {
 				}
 				if dumpAfter {
 					c05DumpAndCheck(h, cache, objs)
+					truthCheck("after Reserve")
+				}
+				if doPreBind {
+					pc, ann := 0, 0
+					if h.Guard(func() {
+						pc = c05CodeOf(pl.PreBind(ctx, cs, kpod, "n1"))
+						if ra, err := apiext.GetReservationAllocated(kpod); err == nil && ra != nil {
+							ann = c05UID(ra.UID)
+						}
+					}) {
+						h.Obs("panic")
+						break
+					}
+					h.Obs("pb %d %d", pc, ann)
+					h.Tag(fmt.Sprintf("pipe:prebind:annotated=%v", ann != 0))
 				}
 				if doUnreserve {
-					if h.Guard(func() { pl.Unreserve(ctx, cs, kpod, "n1") }) {
+					apiPod := pod.build()
+					apiPod.Labels = kpod.Labels
+					switch apiPodKind {
+					case 1:
+						_ = pIdx.Add(apiPod)
+					case 2:
+						apiPod.Spec.NodeName = "n1"
+						apiPod.Annotations = kpod.Annotations
+						_ = pIdx.Add(apiPod)
+					}
+					panicked := h.Guard(func() { pl.Unreserve(ctx, cs, kpod, "n1") })
+					_ = pIdx.Delete(apiPod)
+					if panicked {
 						h.Obs("panic")
 						break
 					}
 					h.Tag("pipe:unreserve")
+					h.Tag(fmt.Sprintf("pipe:unreserve:assumed=%v:prebound=%v", assumedInto != 0, doPreBind))
 					h.Obs("unr")
 					c05DumpAndCheck(h, cache, objs)
 					delete(bound, pu)
+					truthCheck(fmt.Sprintf("after Unreserve of pod %d (PreBind ran: %v)", pu, doPreBind))
+					if assumedInto != 0 {
+						// a further owner asks for what the rolled-back pod had asked for: restricted fit on the live entry
+						// (or, half of the time, for exactly the remainder by the harness' own books / one above it)
+						ru := assumedInto
+						if po := rsvs[ru].o; r.Bool() && !pod.empty {
+							used, _ := usedBy(ru)
+							for d := 0; d < c05D; d++ {
+								if rem := po.st[d] - po.reserved[d] - used[d]; po.st[d] > 0 && rem > 0 {
+									q[d] = rem + int64(r.Intn(2))
+								}
+							}
+							h.Tag("pipe:fit-after-rollback:boundary")
+						}
+						h.Op("fit %d %s 0 0 0 0", ru, vInts(q[:]))
+						h.Tag("pipe:op:fit-after-rollback")
+						ri := cache.reservationInfos[types.UID(strconv.Itoa(ru))]
+						if ri == nil {
+							h.Obs("fit none")
+							break
+						}
+						podReq := c05List(q, -1)
+						if pod.empty {
+							podReq = corev1.ResourceList{}
+						}
+						_, reasons := fitsNodeAndReservation(framework.NewResource(podReq), nil, nil, nil, nil, podReq, nil,
+							&corev1.Pod{}, ri, nil, 1, true, true, nil, nil)
+						flags, unknown := c05FitFlags(reasons)
+						if unknown {
+							h.Obs("fit unknown-reason")
+						} else {
+							h.Obs("fit %d %d %d %d", vB(flags[0]), vB(flags[1]), vB(flags[2]), vB(flags[3]))
+						}
+						h.Tag(fmt.Sprintf("pipe:fit-after-rollback:%v", len(reasons) == 0))
+						if po := rsvs[ru].o; len(reasons) == 0 && po.policy == 2 && !pod.empty {
+							used, cnt := usedBy(ru)
+							for d := 0; d < c05D; d++ {
+								if !c05HasName(ri, d) || q[d] <= 0 {
+									continue
+								}
+								capa := po.st[d]
+								if capa < 0 {
+									capa = 0
+								}
+								if used[d]+q[d] > capa-po.reserved[d] {
+									h.Fail("C05:pipeline-fit-overcommit", "after the roll-back of pod %d a pod requesting %d of dim %d passes the fit of Restricted reservation %d: assigned %d + %d > allocatable %d - reserved %d",
+										pu, q[d], d, ru, used[d], q[d], capa, po.reserved[d])
+								}
+							}
+							if po.maxPods >= 0 && int64(cnt)+1 > po.maxPods {
+								h.Fail("C05:pipeline-fit-too-many-pods", "after the roll-back of pod %d a pod passes the fit of Restricted reservation %d as pod number %d of %d reserved",
+									pu, ru, cnt+1, po.maxPods)
+							}
+						}
+					}
 				}
 			}
 		}
@@ -514,6 +796,9 @@ func TestVerifC05Pipeline(t *testing.T) {
 	h.Close("one history of 0-3 reservations on one node (allocate-once / re-usable, Default / Aligned / Restricted, owner label a|b, zone label, inner reserved, " +
 		"reserved pod count, restricted options) and 2-8 steps: scheduling cycles of fresh pods through the real Plugin (with / without reservation affinity by selector or " +
 		"name, owner-matching or not, requests steered to the remainder of a reservation / small / too large, declared-zero and absent keys, node roomy / exactly full / " +
-		"without any room), reservation refresh / Succeeded / allocate-once flips, deletion of bound pods, Unreserve of 1 in 5 reserved pods; " +
-		"non-trivial = a pod was assumed into a reservation; distinct by op lines")
+		"without any room), reservation refresh / Succeeded / allocate-once flips, deletion of bound pods; roll-back stage per cycle: none / Unreserve right after Reserve " +
+		"(also after a failed Reserve) / PreBind then Unreserve (pod lister shows nothing / the unbound pod / the pod on the node) / PreBind only, each roll-back " +
+		"followed by a restricted-fit question for a further owner; 0-2 late reservations created unscheduled whose own reserve-pod cycle runs Reserve on n1..n3 -> " +
+		"Unreserve (lister still has the object / lost it / lost it before Reserve) or bound -> refresh / Delete; " +
+		"non-trivial = a pod was assumed into a reservation or a reserve-pod cycle ran; distinct by op lines")
 }
